@@ -30,6 +30,7 @@ type Scenario struct {
 	Record     bool
 	Poison     bool
 	YieldSeg   bool // with FSYield: only calls on segment files, the directory table and files outside the database directory are scheduling points (index/meta files are touched under DB.mu only and never by Backup/FileSize readers)
+	NoPrivateQuiet bool // disable the thread-private-mutex reduction (set automatically when its assumption breaks)
 	QuietPop   bool // reduction: iterator Next calls that only pop an already fetched item are not scheduling points
 	PostClose  []Op // operations main runs after the threads joined and after Close (use-after-close probes)
 }
@@ -54,7 +55,7 @@ func (sc *Scenario) JSON() map[string]interface{} {
 		ts = append(ts, w)
 	}
 	return map[string]interface{}{"name": sc.Name, "base": sc.Base, "cfg": sc.Cfg, "threads": ts, "fs_yield": sc.FSYield, "track_races": sc.TrackRaces,
-		"worker": sc.Worker, "tick_budget": sc.TickBudget, "bound": sc.Bound, "poison": sc.Poison, "quiet_pop": sc.QuietPop, "yield_seg": sc.YieldSeg, "post_close": WordString(sc.PostClose)}
+		"worker": sc.Worker, "tick_budget": sc.TickBudget, "bound": sc.Bound, "poison": sc.Poison, "quiet_pop": sc.QuietPop, "yield_seg": sc.YieldSeg, "no_private_quiet": sc.NoPrivateQuiet, "post_close": WordString(sc.PostClose)}
 }
 
 // Event is one completed operation of a thread.
@@ -352,6 +353,9 @@ func RunScenario(sc *Scenario, base *Base, prefix []int, keepTrace bool, sleep .
 					if strings.HasPrefix(n, DBPath+"/") && !strings.HasSuffix(n, refmodel.SegmentExt) {
 						return
 					}
+					if n != "" && !strings.HasPrefix(n, DBPath+"/") {
+						return // a file of the backup destination: only the backup thread ever touches it
+					}
 				}
 				vsync.Yield("fs:" + label)
 			}
@@ -410,7 +414,7 @@ func RunScenario(sc *Scenario, base *Base, prefix []int, keepTrace bool, sleep .
 			execOp(s, st, 0, 900+i, o, r)
 		}
 	}
-	cfg := vsync.Sched{KeepTrace: keepTrace, TrackRaces: sc.TrackRaces, TickBudget: sc.TickBudget}
+	cfg := vsync.Sched{KeepTrace: keepTrace, TrackRaces: sc.TrackRaces, TickBudget: sc.TickBudget, PrivateQuiet: !sc.NoPrivateQuiet}
 	if len(sleep) > 0 {
 		cfg.UseSleep = true
 		cfg.SleepAt = sleep[0]
@@ -496,10 +500,14 @@ func ExploreScenario(c *Ctx, sc *Scenario, base *Base, slice time.Time, check fu
 		return check(r)
 	}
 	quietBad := false
+	privateBad := false
 	run := func(prefix []int, sleep []int) *vsync.Exec {
 		r := RunScenario(sc, base, prefix, false, sleep)
 		if r.QuietBad {
 			quietBad = true
+		}
+		if r.X.PrivateBroken && !sc.NoPrivateQuiet {
+			privateBad = true
 		}
 		if r.X.SleepBlocked {
 			c.Add("sleep_blocked", 1)
@@ -547,8 +555,17 @@ func ExploreScenario(c *Ctx, sc *Scenario, base *Base, slice time.Time, check fu
 		passes = []pass{{0, 0}, {1, 0}, {fullB, 5000}, {2, 0}, {3, 0}, {4, 0}, {6, 0}, {8, 0}, {12, 0}, {fullB, 0}}
 	}
 	for _, p := range passes {
-		ex := &vsync.Explorer{Bound: p.bound, Deadline: deadline, MaxExecs: p.cap, Run: run, Check: func(x *vsync.Exec) bool { return viol == nil && !quietBad }}
+		ex := &vsync.Explorer{Bound: p.bound, Deadline: deadline, MaxExecs: p.cap, Run: run, Check: func(x *vsync.Exec) bool { return viol == nil && !quietBad && !privateBad }}
 		ex.Explore()
+		if privateBad && !sc.NoPrivateQuiet {
+			// a mutex whose scheduling points were skipped as thread-private is shared after all: explore without that reduction
+			c.Add("private_mutex_reduction_dropped", 1)
+			sc2 := *sc
+			sc2.NoPrivateQuiet = true
+			v2, st2 := ExploreScenario(c, &sc2, base, slice, check)
+			st2.Execs += st.Execs + ex.Execs
+			return v2, st2
+		}
 		if quietBad && sc.QuietPop {
 			// the build under test reads shared state in a Next call that only pops: explore without the reduction
 			c.Add("quietpop_reduction_dropped", 1)
